@@ -66,6 +66,14 @@ Theorem accepted_count_and_split : forall mp mk s n eh,
 Proof. exact accepted_count. Qed.
 Print Assumptions accepted_count_and_split.
 
+(* the configured limit on the parameter count holds for every accepted string, however long
+   (used by the correspondence check for patterns with >= 65536 wildcards, which are not run
+   through the model) *)
+Theorem accepted_within_limit : forall mp mk s n eh,
+  parseRoute mp mk s = Accept n eh -> n <= mp /\ n = tok_wilds (tokenize s).
+Proof. exact within_limit. Qed.
+Print Assumptions accepted_within_limit.
+
 (* -- parseWildcard agrees with the validator: on any key cut from an accepted pattern at
       token boundaries it returns exactly the key's wildcards with their end offsets -- *)
 Theorem parseWildcard_agrees : forall mp mk s n eh a b c,
